@@ -1,7 +1,7 @@
 """C04 - hand-written backward methods: variance typing (VT), sibling agreement (SB), layout conventions (LT)."""
 import ast, re, copy
 from ..core import RuleResult, Finding, AnalysisError, dotted, src, norm_construct
-from ..expr import inline_straight, returns_of, dump, subst
+from ..expr import inline_straight, returns_of, dump, subst, rv
 from .. import paths
 
 OP = 'pypose.lietensor.operation'
@@ -49,8 +49,9 @@ def _is_rotation_alias(repo, name, depth=0):
         return False
     g = repo.func(OP, name)
     rets = returns_of(g.node)
-    if len(rets) == 1 and isinstance(rets[0].value, ast.Call) and len(g.node.body) <= 2:
-        d = dotted(rets[0].value.func)
+    v0 = rv(g.node, rets[0]) if len(rets) == 1 else None
+    if isinstance(v0, ast.Call) and len(g.node.body) <= 3:
+        d = dotted(v0.func)
         return d is not None and _is_rotation_alias(repo, d, depth + 1)
     return False
 
@@ -63,7 +64,8 @@ def skew_families(repo):
         callees = {dotted(c.func) for c in paths.calls_in(f.node)}
         inl = inline_straight(f.node)
         rets = returns_of(f.node)
-        if not inl.stores and len(rets) == 1 and isinstance(rets[0].value, ast.Call) and dotted(rets[0].value.func) == 'vec2skew':
+        v0 = rv(f.node, rets[0]) if len(rets) == 1 else None
+        if not inl.stores and isinstance(v0, ast.Call) and dotted(v0.func) == 'vec2skew':
             out[fam] = True
             continue
         ok = bool(inl.stores) and all(_diag_block(idx) and isinstance(val, ast.Call) and dotted(val.func) == 'vec2skew'
